@@ -407,6 +407,8 @@ fn gen_sauce(rng: &mut Rng) -> SauceD {
         letter_spacing: rng.bool(),
         aspect_ratio: rng.bool(),
         font: None,
+        // half of the documents remember a file type from an earlier load (a .pcb opened and saved as .icy, ...)
+        file_type: if rng.bool() { 0 } else { rng.below(9) as u8 },
     }
 }
 
